@@ -29,6 +29,37 @@ pub struct Cfg {
     pub exclude_list: bool,
     /// Some(requirement index) = go through Client instead of the authenticator API
     pub client_uv_req: Option<u8>,
+    /// how the CTAP request reaches the authenticator: 0 = built as a value; 2 = through its CBOR encoding with
+    /// every option that has its CTAP default (up=true, rk=false, uv=false) left out of the options map;
+    /// 3 = like 2 and an options map that became empty is left out altogether
+    #[serde(default)]
+    pub wire: u8,
+}
+
+/// re-read a request from its CBOR encoding after dropping the option entries that carry their default value
+fn through_wire<T: Serialize + serde::de::DeserializeOwned>(req: T, options_key: i64, wire: u8) -> Result<T, String> {
+    use ciborium::value::Value as V;
+    if wire == 0 {
+        return Ok(req);
+    }
+    let mut v = V::serialized(&req).map_err(|e| format!("request does not serialise: {e}"))?;
+    if let V::Map(m) = &mut v {
+        let mut drop_key = false;
+        for (k, val) in m.iter_mut() {
+            if k.as_integer().map(i128::from) == Some(options_key as i128) {
+                if let V::Map(o) = val {
+                    o.retain(|(name, b)| !matches!((name.as_text(), b.as_bool()), (Some("up"), Some(true)) | (Some("rk"), Some(false)) | (Some("uv"), Some(false))));
+                    drop_key = o.is_empty() && wire == 3;
+                }
+            }
+        }
+        if drop_key {
+            m.retain(|(k, _)| k.as_integer().map(i128::from) != Some(options_key as i128));
+        }
+    }
+    let mut bytes = vec![];
+    ciborium::ser::into_writer(&v, &mut bytes).map_err(|e| format!("{e}"))?;
+    ciborium::de::from_reader(bytes.as_slice()).map_err(|e| format!("the request's CBOR encoding with default options left out does not decode: {e}"))
 }
 
 const RP: &str = "example.com";
@@ -95,6 +126,7 @@ pub fn execute(c: &Cfg, matching: bool) -> Result<Outcome, String> {
                 pin_auth: pin,
                 pin_protocol: c.pin_auth.then_some(1),
             };
+            let req = through_wire(req, 0x07, c.wire)?;
             let r = std::panic::catch_unwind(std::panic::AssertUnwindSafe(|| block_on(auth.make_credential(req)))).map_err(|_| format!("make_credential panicked: {}", crate::last_panic()))?;
             match r {
                 Ok(resp) => {
@@ -114,6 +146,7 @@ pub fn execute(c: &Cfg, matching: bool) -> Result<Outcome, String> {
                 pin_auth: pin,
                 pin_protocol: c.pin_auth.then_some(1),
             };
+            let req = through_wire(req, 0x05, c.wire)?;
             let r = std::panic::catch_unwind(std::panic::AssertUnwindSafe(|| block_on(auth.get_assertion(req)))).map_err(|_| format!("get_assertion panicked: {}", crate::last_panic()))?;
             match r {
                 Ok(resp) => {
@@ -210,12 +243,16 @@ pub fn all_configs() -> Vec<Cfg> {
                         for pin_auth in [false, true] {
                             for matching in [false, true] {
                                 let script = UvScript { presence_enabled: pe, verification_enabled: ve, outcome: *o, yields: 0 };
-                                if create {
-                                    for exclude_list in [false, true] {
-                                        v.push(Cfg { create, rk: bits & 1 != 0, up: bits & 2 != 0, uv: bits & 4 != 0, script: script.clone(), pin_auth, matching, exclude_list, client_uv_req: None });
+                                // wire 3 differs from 2 only when every option has its default
+                                let wires: &[u8] = if bits == 2 { &[0, 2, 3] } else { &[0, 2] };
+                                for &wire in wires {
+                                    if create {
+                                        for exclude_list in [false, true] {
+                                            v.push(Cfg { create, rk: bits & 1 != 0, up: bits & 2 != 0, uv: bits & 4 != 0, script: script.clone(), pin_auth, matching, exclude_list, client_uv_req: None, wire });
+                                        }
+                                    } else {
+                                        v.push(Cfg { create, rk: bits & 1 != 0, up: bits & 2 != 0, uv: bits & 4 != 0, script: script.clone(), pin_auth, matching, exclude_list: false, client_uv_req: None, wire });
                                     }
-                                } else {
-                                    v.push(Cfg { create, rk: bits & 1 != 0, up: bits & 2 != 0, uv: bits & 4 != 0, script, pin_auth, matching, exclude_list: false, client_uv_req: None });
                                 }
                             }
                         }
@@ -232,7 +269,7 @@ pub fn all_configs() -> Vec<Cfg> {
                     for matching in [false, true] {
                         for rk in [false, true] {
                             let script = UvScript { presence_enabled: true, verification_enabled: ve, outcome: *o, yields: 0 };
-                            v.push(Cfg { create, rk, up: true, uv: req != 2, script, pin_auth: false, matching, exclude_list: create && matching, client_uv_req: Some(req) });
+                            v.push(Cfg { create, rk, up: true, uv: req != 2, script, pin_auth: false, matching, exclude_list: create && matching, client_uv_req: Some(req), wire: 0 });
                         }
                     }
                 }
@@ -243,7 +280,7 @@ pub fn all_configs() -> Vec<Cfg> {
 }
 
 pub fn run(ctx: &mut Ctx) {
-    ctx.rule = "complete product: operation (create/assert) x requested rk,up,uv (8) x verification capability (none, unconfigured, configured) x presence capability (2) x user-validation outcome (4 presence/verification results + 3 error codes) x pin-auth (2) x store content (matching credentials present/absent; create: exclude list absent/naming a held credential), each on a fresh authenticator with call-logging doubles; plus the same through Client (UV requirement x capability x outcome x content x rk). Every configuration is distinct and non-trivial.".into();
+    ctx.rule = "complete product: operation (create/assert) x requested rk,up,uv (8) x verification capability (none, unconfigured, configured) x presence capability (2) x user-validation outcome (4 presence/verification results + 3 error codes) x pin-auth (2) x request handed over as a value / through its CBOR encoding with default-valued options omitted (and the emptied options map omitted) x store content (matching credentials present/absent; create: exclude list absent/naming a held credential), each on a fresh authenticator with call-logging doubles; plus the same through Client (UV requirement x capability x outcome x content x rk). Every configuration is distinct and non-trivial.".into();
     ctx.exhaustive = Some(true);
     ctx.assumptions = vec![
         "'consent is missing' = verification requested without configured capability, or create with up=false, or the validation step returned an error, or it did not report a presence/verification that was requested".into(),
